@@ -571,7 +571,7 @@ func genCase(r *hv.Rng, feat map[string]int) *tcase {
 	c := &tcase{}
 	m := newMirror()
 	g := &histGen{r: r, m: m, feat: feat,
-		allowSetType: r.Chance(0.3), allowClear: r.Chance(0.12), allowTempl: r.Chance(0.25)}
+		allowSetType: true, allowClear: r.Chance(0.4), allowTempl: r.Chance(0.5)}
 	switch x := r.Intn(10); {
 	case x < 2:
 		feat["init:empty"]++
